@@ -27,6 +27,7 @@ pub const MAGIC: Word = 0x5EED_BEAC_0000_0001;
 pub const B_START: Word = 1;
 pub const B_END: Word = 2;
 pub const B_OBS: Word = 3;
+pub const B_DIGEST: Word = 4;
 /// Marker words the hook-level node spy looks for (`PUSH MAGIC_IN; <tag>; PUSH abs_id`).
 pub const MAGIC_IN: Word = 0x5EED_1A70_0000_0002;
 pub const MAGIC_OUT: Word = 0x5EED_0A70_0000_0003;
@@ -159,6 +160,10 @@ pub fn own_decode_mutations(ws: &[Word]) -> Result<Vec<Mutation>, bool> {
     if count < 0 {
         return Err(true);
     }
+    if count == 0 {
+        // an empty list; words after a zero count are not covered by the documented layout
+        return if ws.len() == 1 { Ok(vec![]) } else { Err(false) };
+    }
     let mut out = vec![];
     let mut i = 1usize;
     while i < ws.len() {
@@ -182,10 +187,6 @@ pub fn own_decode_mutations(ws: &[Word]) -> Result<Vec<Mutation>, bool> {
         }
         out.push(Mutation { key, value: ws[vs..vs + vl].to_vec() });
         i = vs + vl;
-        if count == 0 {
-            // a zero count followed by more words: unspecified
-            return Err(false);
-        }
     }
     if out.len() as Word != count {
         return Err(false);
@@ -852,6 +853,14 @@ pub fn check_beacons(sc: &Scenario, rv: &RefVerdict, info: &RefInfo, run: &RealR
             _ => {}
         }
     }
+    // leaf input digests against the reference's
+    if matches!(rv, RefVerdict::Ok { .. }) {
+        let (got, exp) = (digests(&run.beacons), digests(&info.ref_beacons));
+        if got != exp {
+            let k = exp.iter().find(|(k, v)| got.get(*k) != Some(*v)).map(|(k, v)| format!("tag {} node id {}: reference digest {v:?}, observed {:?}", k.0, k.1, got.get(k)));
+            issue(out, "C01", "leaf-input-digest", format!("the digest of a leaf's whole input differs from the reference: {}", k.unwrap_or_default()));
+        }
+    }
     for ((si, ni), s) in &starts {
         if s.len() > 1 {
             issue(out, "C01", "executed-twice", format!("solution {si} node {ni} started {} times", s.len()));
@@ -926,6 +935,15 @@ pub fn normalise_obs(p: &[Word]) -> Vec<Word> {
     let mut out = vec![n];
     out.extend(w);
     out
+}
+
+/// Leaf input digests announced by the run: (solution tag, node id) -> digests.
+pub fn digests(beacons: &[Beacon]) -> BTreeMap<(Word, Word), Vec<Word>> {
+    let mut m: BTreeMap<(Word, Word), Vec<Word>> = BTreeMap::new();
+    for b in beacons.iter().filter(|b| b.kind == B_DIGEST) {
+        m.entry((b.tag, b.node)).or_default().extend(b.payload.iter().copied());
+    }
+    m
 }
 
 /// Start-order signature of a run (for counting distinct interleavings).
